@@ -39,6 +39,8 @@ package golang
 //@   requires cu != nil
 //@   ensures result == cu.features
 
+// Every argument is cut at its first '=': the part before is the option name, the part after its value, "" for a bare
+// name -- whatever the previous argument was.
 //@ func (cu *CodeUtils) HandleOptions(args []string) error
 //@   requires cu != nil && wfTable()
 //@   ensures result == nil ==> (cu.useTemplate == "slim" ==> !cu.features.GenDeepEqual)
@@ -46,6 +48,7 @@ package golang
 //@   modifies cu.packagePrefix, cu.features, cu.namingStyle, cu.doInitialisms, cu.useTemplate, contents(cu.importReplace)
 //@   loop 1.1 invariant forall k int :: 0 <= k && k < $i ==> !prefixof(allParams[k].name, name)
 //@   site call:p.action assert forall k int :: 0 <= k && k < $i@1.1 ==> !prefixof(allParams[k].name, name)
+//@   site call:p.action assert name == ite(indexOf(a, "=") >= 0, a[:indexOf(a, "=")], a) && value == ite(indexOf(a, "=") >= 0, a[indexOf(a, "=")+1:], "")
 
 // ---- constant / default value kinds (C04): a value of a kind the declared scalar type cannot hold is an error ----
 // cvOK: what the parser and the semantic pass hand over: typed values are present, identifiers other than true/false are
